@@ -146,26 +146,30 @@ impl<'a> Lexer<'a> {
     }
 
     fn next_token(&mut self) -> Result<Option<Token>, String> {
-        self.skip_whitespace();
+        // Comments are skipped in a loop: recursing once per comment overflows the
+        // stack on inputs with thousands of consecutive comments.
+        let (char, start_line, start_column) = loop {
+            self.skip_whitespace();
 
-        if self.chars.peek().is_none() {
-            return Ok(None);
-        }
-
-        let start_line = self.line;
-        let start_column = self.column;
-        let char = self.advance().unwrap();
-
-        // Comments
-        if char == '/' {
-            if let Some(&'/') = self.chars.peek() {
-                self.skip_line_comment();
-                return self.next_token();
-            } else if let Some(&'*') = self.chars.peek() {
-                self.skip_block_comment();
-                return self.next_token();
+            if self.chars.peek().is_none() {
+                return Ok(None);
             }
-        }
+
+            let start_line = self.line;
+            let start_column = self.column;
+            let char = self.advance().unwrap();
+
+            if char == '/' {
+                if let Some(&'/') = self.chars.peek() {
+                    self.skip_line_comment();
+                    continue;
+                } else if let Some(&'*') = self.chars.peek() {
+                    self.skip_block_comment();
+                    continue;
+                }
+            }
+            break (char, start_line, start_column);
+        };
 
         // String literals
         if char == '\'' || char == '"' {
